@@ -63,6 +63,11 @@ class Contract(object):
         self.all_props = tuple(d.get('all_props', default_props))
         self.note = d.get('note', '')
         self.cases = d.get('cases')     # optional list of extra case-split predicates
+        # gaps: sub-cases of a clause that the verifier cannot decide; the deductive obligation
+        # is generated for the complement only and the sub-case is covered by a *bounded*
+        # native check (labelled bounded, never counted as proved).
+        # each: dict(name=..., cond=fn(params)->bool, clauses=[...], gen=fn(seed, tier)->iter of arg dicts)
+        self.gaps = list(d.get('gaps', []))
         self.variants = list(d.get('variants', []))   # extra units with some params fixed (e.g. prec=None)
         self.none_as = dict(d.get('none_as', {}))     # at call sites: param given as None means this value
         self.sig = inspect.signature(self.func)
